@@ -173,6 +173,7 @@ structure St where
   relaxDup : Bool := false
   badParse : Bool := false
   rhints : List (List HopHint) := []
+  dropped : List (Nat × Nat × Int × Int) := []
   srch : Option SearchInfo := none
   evs : List Ev := []
   probBits : Option Nat := none
@@ -216,6 +217,8 @@ structure St where
   metaLen : Nat := 0
   probMode : Int := 0
   samples : Nat := 0
+  reannounced : Nat := 0
+  staleCached : Nat := 0
   invHintCases : Nat := 0
   invChained : Nat := 0
   invChainedRoutes : Nat := 0
@@ -270,7 +273,8 @@ def requiredFeeGo (p : Policy) (inb : Int × Int) (fwdAmt : Nat) : Nat :=
     decision itself is `routeOK`).  A fee clause is tagged `+overflow` only when,
     at that very hop, Go's wrapping fee arithmetic on that hop's own policy
     differs from the exact fee and the route does pay the wrapped fee. -/
-def violations (g : Graph) (r : Req) (rt : Route) : List (String × String) := Id.run do
+def violations (g : Graph) (r : Req) (rt : Route) (cached : Bool := false)
+    (dropped : List (Nat × Nat × Int × Int) := []) : List (String × String) := Id.run do
   let mut out : List (String × String) := []
   if rt.source != r.source then out := out ++ [("source", "")]
   if rt.hops.isEmpty then return out ++ [("empty", "")]
@@ -308,7 +312,13 @@ def violations (g : Graph) (r : Req) (rt : Route) : List (String × String) := I
         let need := requiredFee p inb hIn.amt
         if hIn.amt + need > aIn then
           let needGo := requiredFeeGo p inb hIn.amt
-          let tag := if needGo != need && hIn.amt + needGo ≤ aIn then "fee+overflow" else "fee"
+          -- the graph cache keeps the inbound fee of a policy that was re-announced without
+          -- an inbound-fee record: the route pays what the OLD inbound fee demands
+          let staleHit := cached && dropped.any fun d =>
+            d.1 == hIn.chan && d.2.1 == cur &&
+              decide (hIn.amt + requiredFee p (d.2.2.1, d.2.2.2) hIn.amt ≤ aIn)
+          let tag := if needGo != need && hIn.amt + needGo ≤ aIn then "fee+overflow"
+            else if staleHit then "fee+stale-cached-inbound" else "fee"
           out := out ++ [(tag, s!"hop={i} node={cur} in={aIn} fwd={hIn.amt} need={need} need_wrapped={needGo} base={p.base} rate={p.rate} inbound={inb.1},{inb.2}")]
         if hIn.tl + p.delta > tIn then
           out := out ++ [("timelock", s!"hop={i} node={cur} in={tIn} out={hIn.tl} delta={p.delta}")]
@@ -478,10 +488,11 @@ def endCase (s : St) : IO St := do
   -- (S) the property monitor: always, in exact arithmetic
   s := { s with monitored := s.monitored + 1 }
   if !routeOK g r rt then
-    let vs := violations g r rt
+    let vs := violations g r rt (s.kind == "dbc") s.dropped
     let vs := if vs.isEmpty then [("unknown", "")] else vs
     for (cl, det) in vs do
       if cl == "fee+overflow" then s := { s with wrapSkipped := s.wrapSkipped + 1 }
+      if cl == "fee+stale-cached-inbound" then s := { s with staleCached := s.staleCached + 1 }
       s ← monitor s cl s!"{det} route total={rt.totalAmt}@{rt.totalTL} {showHops rt.hops}"
   -- (S) finality: the entries the search used when it relaxed the edges of the returned
   -- chain are the ones recomputed along the chain
@@ -554,7 +565,7 @@ def step (s : St) (line : String) : IO St := do
                     find := "",
                     edges := [], routeOk := false, rh := {}, hops := [], hopFees := [],
                     stored := [], probOk := true, relaxDup := false, usesHint := false,
-                    srch := none, evs := [], probBits := none, rhints := [],
+                    srch := none, evs := [], probBits := none, rhints := [], dropped := [],
                     metaLen := nat "meta", probMode := (kvInt? rest "prob").getD 0,
                     badParse := bad, cases := s.cases + 1 }
   | "chan" :: id :: a :: b :: rest =>
@@ -578,6 +589,11 @@ def step (s : St) (line : String) : IO St := do
       let hs := hops.filterMap id
       return { s with rhints := s.rhints ++ [hs], hintIds := hs.map (·.chan) ++ s.hintIds }
     else return { s with badParse := true }
+  | ["droppedinb", c, n, ib, ir] =>
+    match nat? c, nat? n, int? ib, int? ir with
+    | some c, some n, some ib, some ir =>
+      return { s with dropped := s.dropped ++ [(c, n, ib, ir)], reannounced := s.reannounced + 1 }
+    | _, _, _, _ => return { s with badParse := true }
   | ["bw", id, v] =>
     match nat? id, nat? v with
     | some id, some v =>
@@ -644,6 +660,8 @@ def main : IO Unit := do
   IO.println s!"STAT routes={s.routes}"
   IO.println s!"STAT routes_monitored={s.monitored}"
   IO.println s!"STAT fee_overflow_violations={s.wrapSkipped}"
+  IO.println s!"STAT cases_after_inbound_fee_record_dropped={s.reannounced}"
+  IO.println s!"STAT stale_cached_inbound_fee_violations={s.staleCached}"
   IO.println s!"STAT nopath={s.nopath}"
   IO.println s!"STAT insufficient_balance={s.insufficient}"
   IO.println s!"STAT other_errors={s.otherErr}"
